@@ -43,6 +43,9 @@ def run(repo: Repo, rep, tier: str):
     descriptor_rule(repo, rep, "C17")
     globals_rule(repo, rep, "C17")
     clone_rules(repo, rep, "C17")
+    # an operation on one project must not write into another project's modules: foreign operands are refused first
+    from . import c07
+    c07.ownership_refusal(repo, rep, "C17")
 
 
 def _rv_classes(repo: Repo) -> List[ClassInfo]:
@@ -225,6 +228,8 @@ def _classify_use(node: ast.AST, parents) -> Tuple[str, str, Optional[str]]:
         return "other", txt, None
     if isinstance(p, ast.Starred):
         return "read", txt, None
+    if isinstance(p, ast.BoolOp) and isinstance(parents.get(id(p)), (ast.Assign, ast.Return, ast.IfExp, ast.BoolOp, ast.Call, ast.keyword)):
+        return _classify_use(p, parents)       # `self.default or []`: the class-level object itself can be the result
     if isinstance(p, (ast.Compare, ast.BoolOp, ast.UnaryOp, ast.IfExp, ast.If, ast.While, ast.JoinedStr, ast.FormattedValue)):
         # `x if cond else self.default[:]` handled by Subscript; bare value flowing out of IfExp is treated below
         if isinstance(p, ast.IfExp) and (p.body is node or p.orelse is node):
